@@ -188,6 +188,46 @@ fn main() {
         })
         .unwrap_or_default();
 
+    if plan["schedule"]["kind"].as_str() == Some("free") {
+        // caller threads run under whatever scheduler owns this process. Used under Miri, whose
+        // seeded scheduler preempts at basic-block granularity (-Zmiri-seed): that reaches races
+        // on state the cache seam does not see (atomics, other locks). All threads start together.
+        let barrier = std::sync::Arc::new(std::sync::Barrier::new(threads.len()));
+        let order = std::sync::Arc::new(std::sync::Mutex::new(Vec::<String>::new()));
+        let handles: Vec<_> = threads
+            .into_iter()
+            .enumerate()
+            .map(|(t, calls)| {
+                let (barrier, order) = (barrier.clone(), order.clone());
+                std::thread::Builder::new()
+                    .stack_size(STACK)
+                    .spawn(move || {
+                        barrier.wait();
+                        calls
+                            .iter()
+                            .enumerate()
+                            .map(|(i, c)| {
+                                order.lock().unwrap().push(format!("b{}.{}", t, i));
+                                let o = run_call(c);
+                                order.lock().unwrap().push(format!("e{}.{}", t, i));
+                                o
+                            })
+                            .collect::<Vec<_>>()
+                    })
+                    .expect("spawn")
+            })
+            .collect();
+        let outs: Vec<Vec<Outcome>> = handles.into_iter().map(|h| h.join().expect("caller thread")).collect();
+        let out = json!({
+            "seam": cfg!(graphql_client_verif),
+            "simulated": false,
+            "free_threads": true,
+            "call_order": order.lock().unwrap().join(" "),
+            "outcomes": outs.iter().map(|t| t.iter().map(|o| o.to_json(dump)).collect::<Vec<_>>()).collect::<Vec<_>>(),
+        });
+        println!("{}", out);
+        return;
+    }
     let simulated = plan["schedule"]["kind"].as_str().map(|k| k != "none").unwrap_or(false);
     if !simulated {
         // sequential: all call lists one after the other on one 16 MiB thread, no simulator
